@@ -88,6 +88,13 @@ FLAVORS3 = {"FUnbuf": "JSONAttrDict", "FBufOff": "BufferedJSONList", "FBufOn": "
 FLAVORS4 = {"FUnbuf": "JSONAttrList", "FBufOff": "MemoryBufferedJSONList", "FBufOn": "MemoryBufferedJSONList"}
 
 
+METHODS_L = ["L.setitem_c", "L.append_c", "L.setitem", "L.delitem", "L.insert", "L.append", "L.extend", "L.iadd", "L.remove", "L.pop", "L.reverse", "L.setslice", "L.delslice",
+             "L.nested_setitem", "L.nested_clear", "L.nested_reset", "L.nested_update"]
+NEW_METHODS = {"setslice", "setitem_c", "append_c", "update_c", "setdefault"}
+METHODS_D = ["D.setitem_c", "D.update_c", "D.setitem", "D.delitem", "D.pop", "D.popitem", "D.update", "D.update_kw", "D.setdefault",
+             "D.nested_setitem", "D.nested_clear", "D.nested_reset", "D.nested_pop"]
+
+
 def scenarios(flavor):
     """(kind, set of injected fault tags) pairs that can be provoked from outside."""
     out = []
@@ -100,6 +107,11 @@ def scenarios(flavor):
     for r in range(len(base2) + 1):
         for fs in itertools.combinations(base2, r):
             out.append(("KRootNoLoad", fs))
+    # every public mutator method, at the root and through a nested child (which must use the root's context):
+    # each must have the lock structure of KMutate
+    for meth in METHODS_L + METHODS_D:
+        out.append(("KMutate:" + meth, ()))
+        out.append(("KMutate:" + meth, ("LOAD",) if flavor != "FBufOn" else ("BUFLOAD",)))
     out.append(("KRead", ()))
     out.append(("KRead", ("LOAD",) if flavor != "FBufOn" else ("BUFLOAD",)))
     out.append(("KSetFilename", ()))
@@ -127,6 +139,7 @@ def run_one(ns, clsname, flavor, kind, faults, tmp, tag):
             json.dump(init, fh)
     x, y, z = cls(f1), cls(f1), cls(f2)
     x(); y(); z()
+    nested_child = x[1] if is_list else x["n"]       # obtained before any fault is injected
     ctx = None
     orig_save = cls._save_to_resource
     try:
@@ -179,7 +192,24 @@ def run_one(ns, clsname, flavor, kind, faults, tmp, tag):
         del log[:]
         raised = None
         try:
-            if kind == "KMutate":
+            if kind.startswith("KMutate:"):
+                meth = kind.split(":", 1)[1]
+                tgt = x
+                if meth.startswith("nested_"):
+                    tgt = nested_child                         # a nested child handle: uses the root's context
+                    meth = meth[7:]
+                tl = isinstance(object.__getattribute__(tgt, "_data"), list)
+                LM = {"setitem_c": lambda: tgt.__setitem__(0, [{"c": 1}]), "append_c": lambda: tgt.append([{"c": 1}]), "setitem": lambda: tgt.__setitem__(0, 5), "delitem": lambda: tgt.__delitem__(0), "insert": lambda: tgt.insert(0, 5),
+                      "append": lambda: tgt.append(5), "extend": lambda: tgt.extend([5, 6]), "iadd": lambda: tgt.__iadd__([5]),
+                      "remove": lambda: tgt.remove(1), "pop": lambda: tgt.pop(), "reverse": lambda: tgt.reverse(),
+                      "clear": lambda: tgt.clear(), "reset": lambda: tgt.reset([3]), "setslice": lambda: tgt.__setitem__(slice(0, 1), [8, 9]),
+                      "delslice": lambda: tgt.__delitem__(slice(0, 1))}
+                DM = {"setitem_c": lambda: tgt.__setitem__("q", {"c": [1]}), "update_c": lambda: tgt.update({"u": {"c": 1}}), "setitem": lambda: tgt.__setitem__("q", 5), "delitem": lambda: tgt.__delitem__("k" if tgt is not x else "a"),
+                      "pop": lambda: tgt.pop("zz"), "popitem": lambda: tgt.popitem(), "update": lambda: tgt.update({"u": 1}),
+                      "update_kw": lambda: tgt.update(w=2), "setdefault": lambda: tgt.setdefault("sd", {"c": 1}),
+                      "clear": lambda: tgt.clear(), "reset": lambda: tgt.reset({"r": 1})}
+                (LM if tl else DM)[meth]()
+            elif kind == "KMutate":
                 if "VALIDATE" in faults:
                     (x.append(bad) if is_list else x.__setitem__("v", bad))
                 elif "BODY" in faults:
@@ -265,13 +295,19 @@ def run(prop, tier, seed):
         for table in (FLAVORS, FLAVORS2, FLAVORS3, FLAVORS4):
             for flavor, clsname in table.items():
                 for kind, faults in scenarios(flavor):
+                    if kind.startswith("KMutate:"):
+                        want_list = kind.startswith("KMutate:L.")
+                        if want_list != clsname.endswith("List"):
+                            continue
+                        kind = "KMutate:" + kind.split(".", 1)[1]
                     n += 1
                     events, raised, stuck, leaked = run_one(ns, clsname, flavor, kind, faults, tmp, f"c{n}")
                     for c, cap in default_caps.items():
                         getattr(ns.cj, c)._BUFFER_CAPACITY = cap
                     fs = "[" + ";".join(str(T[f]) for f in faults) + "]"
                     var = "{| v_list := %s; v_shm := %s |}" % ("true" if clsname.endswith("List") else "false", "true" if clsname.startswith("Memory") else "false")
-                    cases.append(f"((({flavor}, {var}), {kind}), {fs}, {c_events(events)}, {'true' if raised else 'false'})")
+                    ckind = ("KMutateNew" if kind.split(":")[-1] in NEW_METHODS else "KMutate") if kind.startswith("KMutate") else kind
+                    cases.append(f"((({flavor}, {var}), {ckind}), {fs}, {c_events(events)}, {'true' if raised else 'false'})")
                     d = {"class": clsname, "flavor": flavor, "kind": kind, "faults": list(faults), "lock_events": events, "raised": raised}
                     descr.append(d)
                     key = f"{flavor}:{kind}"
